@@ -232,7 +232,13 @@ impl<D: ChunkData> ScriptedStream<D> {
             "honest" | "extra" => {
                 if owed > 0 {
                     if self.end - self.pos > MAX_HONEST {
-                        ('s', 0, false, false)
+                        // a range too long to stream to its end: hand out a few real chunks, then
+                        // stall (Pending without wake-up); the harness stops polling there
+                        if self.pos - self.start < 3 * self.script.chunk.min(1 << 16) {
+                            ('y', self.script.chunk.min(1 << 16), false, false)
+                        } else {
+                            ('s', 0, false, false)
+                        }
                     } else {
                         // at most ~6 chunks per stream whatever the configured chunk size
                         let total = self.end - self.start;
